@@ -277,6 +277,7 @@ def verify_seen_cut(fx, cg, comp):
     """A recursion whose cycles are cut by a set of already-seen items: `if seen.contains(&x) [&& pred(x)] { return .. }`
     followed by `seen.insert(x)`. Every recursive call must sit in a match arm on x whose variants pred() accepts."""
     from ..vmmodel import _diverges, kind_filter
+    from .. import terms as T
 
     for name in sorted(comp):
         b = fx.body(name)
@@ -365,7 +366,20 @@ def verify_seen_cut(fx, cg, comp):
                 if not passes_seen:
                     return False, f"the recursive call at {F.loc(c['span'])} does not hand on the seen set it was given (a fresh set forgets the ancestors: a cycle through that position is never cut)", {"function": name}
         missing = sorted(rec_variants - accepted)
-        smp = {"function": name, "guarded_enum": adt, "guard_accepts": sorted(accepted), "recursive_variants": sorted(rec_variants), "recursive_calls": n_calls}
+        # variants the guard cuts although they do not recurse: harmless only if their arm never yields a value (an error arm)
+        over = []
+        for m, _ in F.exprs(root, "Match"):
+            if F.local_of(F.strip(m["scrut"])) != x:
+                continue
+            for a in m["arms"]:
+                pv = F.pat_variants(a["pat"])
+                vs = {v for _, v in pv} if pv else set()
+                for v in sorted((accepted - rec_variants) & vs):
+                    leaves = [F.strip(y) for y in T.result_leaves(a["body"])]
+                    only_err = T.diverges(a["body"]) or (bool(leaves) and all(y.get("k") == "Call" and (F.path_def(y["f"]) or "").endswith("::Err") for y in leaves))
+                    if not only_err:
+                        over.append(v)
+        smp = {"function": name, "guarded_enum": adt, "guard_accepts": sorted(accepted), "recursive_variants": sorted(rec_variants), "recursive_calls": n_calls, "over_accepted": sorted(set(over))}
         if n_calls == 0:
             return False, "no recursive call found under the guarded match", smp
         if missing:
